@@ -612,7 +612,11 @@ def _replay(fsrc, contract, ex, args, model, ob, case):
             info["confirmed"] = not bool(ok)
         except Exception as e:  # real function raised
             info["raised"] = f"{type(e).__name__}: {e}"
-            if ob is None:
+            if isinstance(e, AttributeError) and "has no attribute" in str(e):
+                # the replay object was built from the fields the counter-model mentions only; the real function
+                # touched another one: the replay says nothing, the refuted obligation stands
+                info["inconclusive"] = f"replay object incomplete: {e}"
+            elif ob is None:
                 en = type(e).__name__
                 if en not in contract.raises:
                     info["confirmed"] = True
